@@ -46,6 +46,7 @@ type Run struct {
 	soft                       []*Term         // preferences for counterexample / witness models (never part of a verdict)
 	memo                       map[string]StrV
 	cs                         *concState
+	race                       *raceState
 	fsCalls                    []Value
 	fsKinds                    []Value
 	gorPanic                   any
@@ -693,6 +694,7 @@ func (e *Engine) registerIntrinsics() {
 		return Ptr(slot)
 	}
 	in["(*bufio.Writer).Write"] = func(r *Run, fr *frame, a []Value) Value {
+		r.raceAccess(writerKey{a[0].(Ptr)}, true, fr, nil)
 		b := (*a[0].(Ptr)).(*bufWriterObj)
 		var s StrV
 		switch p := a[1].(type) {
@@ -716,6 +718,7 @@ func (e *Engine) registerIntrinsics() {
 		s := in["fmt.Sprintln"](r, fr, []Value{a[1]}).(StrV)
 		if p, ok := w.V.(Ptr); ok && p != nil {
 			if b, ok := (*p).(*bufWriterObj); ok {
+				r.raceAccess(writerKey{p}, true, fr, nil)
 				b.buf = concatStr(b.buf, s)
 				return Tuple{r.strLen(s), Iface{}}
 			}
@@ -731,11 +734,13 @@ func (e *Engine) registerIntrinsics() {
 		return res
 	}
 	in["(*bufio.Writer).WriteString"] = func(r *Run, fr *frame, a []Value) Value {
+		r.raceAccess(writerKey{a[0].(Ptr)}, true, fr, nil)
 		b := (*a[0].(Ptr)).(*bufWriterObj)
 		b.buf = concatStr(b.buf, a[1].(StrV))
 		return Tuple{r.strLen(a[1].(StrV)), Iface{}}
 	}
 	in["(*bufio.Writer).Flush"] = func(r *Run, fr *frame, a []Value) Value {
+		r.raceAccess(writerKey{a[0].(Ptr)}, true, fr, nil)
 		b := (*a[0].(Ptr)).(*bufWriterObj)
 		if len(b.buf.Segs) == 0 {
 			return Iface{}
@@ -846,6 +851,13 @@ func (e *Engine) runPath(solver *Solver, harness *ssa.Function, prefix []bool, w
 			}
 			if len(res.detail) > 160 {
 				res.detail = res.detail[:160]
+			}
+		}
+		if r.race != nil && len(r.race.reports) > 0 && res.status != "pruned" && res.status != "unsupported" {
+			// unordered conflicting accesses seen on this path's schedule (race.go)
+			m := r.model()
+			for _, msg := range r.race.reports {
+				res.violations = append(res.violations, Violation{ID: "race@" + ctx, Detail: msg, Model: m, Path: append([]bool{}, r.decisions...)})
 			}
 		}
 	}()
@@ -1179,16 +1191,19 @@ func bytesArg(v Value) StrV {
 func (e *Engine) registerBytesBuffer() {
 	in := e.intrinsics
 	in["(*bytes.Buffer).Write"] = func(r *Run, fr *frame, a []Value) Value {
+		r.raceAccess(writerKey{a[0].(Ptr)}, true, fr, nil)
 		s := bytesArg(a[1])
 		r.bbufAppend(r.bbuf(a[0]), s)
 		return Tuple{r.strLen(s), Iface{}}
 	}
 	in["(*bytes.Buffer).WriteString"] = func(r *Run, fr *frame, a []Value) Value {
+		r.raceAccess(writerKey{a[0].(Ptr)}, true, fr, nil)
 		s := a[1].(StrV)
 		r.bbufAppend(r.bbuf(a[0]), s)
 		return Tuple{r.strLen(s), Iface{}}
 	}
 	in["(*bytes.Buffer).WriteByte"] = func(r *Run, fr *frame, a []Value) Value {
+		r.raceAccess(writerKey{a[0].(Ptr)}, true, fr, nil)
 		r.bbufAppend(r.bbuf(a[0]), strFromBytes([]*Term{a[1].(IntV).term(8)}))
 		return Iface{}
 	}
@@ -1196,6 +1211,7 @@ func (e *Engine) registerBytesBuffer() {
 		if a[0].(Ptr) == nil {
 			return strLit("<nil>")
 		}
+		r.raceAccess(writerKey{a[0].(Ptr)}, false, fr, nil)
 		return r.bbuf(a[0]).s
 	}
 	in["(*bytes.Buffer).Bytes"] = func(r *Run, fr *frame, a []Value) Value {
